@@ -27,6 +27,10 @@ namespace OP2Utility::Stream
 		if ((openMode & OpenMode::Truncate) != 0) {
 			iosOpenMode |= std::ios_base::trunc;
 		}
+		else if (XFile::PathExists(filename)) {
+			// Opening with only the out flag truncates. Add the in flag to preserve the existing contents.
+			iosOpenMode |= std::ios_base::in;
+		}
 		if ((openMode & OpenMode::Append) != 0) {
 			iosOpenMode |= std::ios_base::ate;
 		}
